@@ -21,17 +21,6 @@ Proof. intros l n Hn. unfold resolve. apply resolve_aux_snoc. exact Hn. Qed.
 Lemma tmp_not_dotdot : forall n, n ++ tmp_suffix <> dotdot.
 Proof. intros n E. apply (f_equal (@List.length N)) in E. rewrite app_length in E. cbn in E. lia. Qed.
 
-Lemma names_file_snoc : forall cs, names_file cs = true -> exists l n, cs = l ++ [n] /\ n <> dotdot.
-Proof.
-  intros cs H. unfold names_file in H. destruct (rev cs) as [| n r] eqn:E; [discriminate H |].
-  exists (rev r), n. split.
-  - rewrite <- (rev_involutive cs), E. reflexivity.
-  - intros En. subst n. rewrite beqb_refl in H. discriminate H.
-Qed.
-
-Lemma names_file_snoc_intro : forall l n, n <> dotdot -> names_file (l ++ [n]) = true.
-Proof. intros l n H. unfold names_file. rewrite rev_unit. rewrite (beqb_neq _ _ H). reflexivity. Qed.
-
 (* save_dict on ANY destination that names a file: `<dst>.tmp` is opened and renamed onto `<dst>`, <dst> the lexically
    normalised destination — `..` components before the last one do not matter *)
 Lemma save_plan_file : forall cs, names_file cs = true ->
@@ -54,7 +43,7 @@ Lemma cfg_file_plan_is_file_dict_plan : forall pc filedir fp,
   p_filedir pc = comps filedir -> cfg_file_plan pc fp = file_dict_plan filedir fp.
 Proof.
   intros pc filedir fp H. unfold cfg_file_plan, file_dict_plan. destruct fp as [p |]; [| reflexivity].
-  destruct (beqb (file_dict_name p) []) eqn:E; [reflexivity |]. rewrite H. f_equal. f_equal.
+  destruct (beqb (file_dict_name p) []) eqn:E; [reflexivity |]. rewrite H. f_equal.
   unfold join_comps. destruct (file_dict_name p) as [| c0 rest] eqn:En; [rewrite beqb_refl in E; discriminate E |].
   rewrite (proj2 (N.eqb_neq c0 slash)); [reflexivity |].
   pose proof (file_dict_name_ns p) as Hns. rewrite En in Hns. apply Hns. left. reflexivity.
@@ -65,17 +54,28 @@ Lemma config_plans_are_save_plans : forall pc user filedir fp,
   (p_filedir pc = comps filedir -> cfg_file_plan pc fp = file_dict_plan filedir fp).
 Proof. intros pc user filedir fp. split; [apply cfg_user_plan_is_user_dict_plan | apply cfg_file_plan_is_file_dict_plan]. Qed.
 
-(* ---- A. the user dictionary ---- *)
-Theorem config_user_save_inside : forall pc, names_file (p_user pc) = true ->
-  let c := mcfg_of pc in
-  cfg_user_plan pc = (m_user c ++ tmp_suffix, m_user c ++ tmp_suffix, m_user c) /\
-  path_allowed c (m_user c ++ tmp_suffix) = true /\ path_allowed c (m_user c) = true /\
-  rename_allowed c (m_user c ++ tmp_suffix) (m_user c) = true.
+(* ---- A. the user dictionary (save_dict since a91f3ee refuses a destination without a file name) ---- *)
+Lemma cfg_user_plan_file : forall pc, names_file (p_user pc) = true ->
+  let c := mcfg_of pc in cfg_user_plan pc = Some (m_user c ++ tmp_suffix, m_user c ++ tmp_suffix, m_user c).
 Proof.
-  intros pc H. cbv zeta. split; [| split; [| split]].
-  - unfold cfg_user_plan. rewrite (save_plan_file _ H). reflexivity.
-  - unfold path_allowed, tmp_of. rewrite (beqb_refl (m_user (mcfg_of pc) ++ tmp_suffix)). rewrite !orb_true_r. reflexivity.
-  - unfold path_allowed. rewrite beqb_refl. reflexivity.
+  intros pc H. cbv zeta. unfold cfg_user_plan, save_dict_plan. rewrite H. rewrite (save_plan_file _ H). reflexivity.
+Qed.
+
+Theorem config_user_no_file_name_nothing : forall pc, names_file (p_user pc) = false -> cfg_user_plan pc = None.
+Proof. intros pc H. unfold cfg_user_plan, save_dict_plan. rewrite H. reflexivity. Qed.
+
+(* NO hypothesis on the setting: whenever HarperAddToUserDict writes at all *)
+Theorem config_user_save_inside : forall pc o s d, cfg_user_plan pc = Some (o, s, d) ->
+  let c := mcfg_of pc in
+  o = m_user c ++ tmp_suffix /\ s = o /\ d = m_user c /\
+  path_allowed c o = true /\ path_allowed c d = true /\ rename_allowed c s d = true.
+Proof.
+  intros pc o s d H. cbv zeta.
+  destruct (names_file (p_user pc)) eqn:Hn; [| rewrite (config_user_no_file_name_nothing pc Hn) in H; discriminate H].
+  rewrite (cfg_user_plan_file pc Hn) in H. inversion H; subst o s d.
+  split; [reflexivity |]. split; [reflexivity |]. split; [reflexivity |]. split; [| split].
+  - unfold path_allowed, tmp_of. rewrite !beqb_refl. rewrite !orb_true_r. reflexivity.
+  - unfold path_allowed. rewrite !beqb_refl. reflexivity.
   - unfold rename_allowed, dict_file, tmp_of. rewrite !beqb_refl. reflexivity.
 Qed.
 
@@ -96,6 +96,7 @@ Proof.
   assert (Hnd : name <> dotdot) by (intros E'; rewrite E' in Hpc; destruct Hpc as [X | [X | []]]; discriminate X).
   assert (Hn1 : name <> onedot) by (intros E'; rewrite E' in Hpc; destruct Hpc as [X | []]; discriminate X).
   rewrite (comps_single name Hns Hname Hn1) in H.
+  rewrite (save_dict_plan_snoc _ _ Hnd) in H.
   rewrite (save_plan_file _ (names_file_snoc_intro (p_filedir pc) name Hnd)) in H.
   rewrite (resolve_snoc _ _ Hnd) in H.
   rewrite (render_nonempty _ (snoc_nonempty _ (resolve (p_filedir pc)) name)), render'_snoc in H.
@@ -164,36 +165,33 @@ Proof.
   - destruct (dict_setting e u _); [destruct (dict_setting e f _) |]; reflexivity.
 Qed.
 
-(* ---- E. the whole: every Config the parser can produce.  The file-dictionary part has NO proviso any more (the root
-   directory included); the user-dictionary part holds when the setting names a file, which absent / empty settings do *)
+(* ---- E. the whole: every Config the parser can produce, NO proviso on any of the three settings ---- *)
 Theorem config_writes_inside : forall e u f s pc, parse_paths e u f s = Some pc ->
   let c := mcfg_of pc in
-  (names_file (p_user pc) = true ->
-     cfg_user_plan pc = (m_user c ++ tmp_suffix, m_user c ++ tmp_suffix, m_user c) /\
-     path_allowed c (m_user c ++ tmp_suffix) = true /\ path_allowed c (m_user c) = true /\
-     rename_allowed c (m_user c ++ tmp_suffix) (m_user c) = true) /\
+  (forall o s' d, cfg_user_plan pc = Some (o, s', d) ->
+     o = m_user c ++ tmp_suffix /\ s' = o /\ d = m_user c /\
+     path_allowed c o = true /\ path_allowed c d = true /\ rename_allowed c s' d = true) /\
   (forall fp o s' d, cfg_file_plan pc fp = Some (o, s', d) ->
      d = m_filedir c ++ slash :: file_dict_name (match fp with Some p => p | None => [] end) /\
      o = d ++ tmp_suffix /\ s' = o /\
      path_allowed c o = true /\ path_allowed c d = true /\ rename_allowed c s' d = true) /\
   path_allowed c (cfg_stats_write pc) = true /\
-  (unset u -> names_file (p_user pc) = true).
+  (unset u -> cfg_user_plan pc = Some (m_user c ++ tmp_suffix, m_user c ++ tmp_suffix, m_user c)).
 Proof.
   intros e u f s pc H. cbv zeta.
   destruct (parse_paths_unset e u f s pc H) as [Hu [Hf _]].
-  split; [intros Hn; exact (config_user_save_inside pc Hn) |].
+  split; [intros o s' d Hp; exact (config_user_save_inside pc o s' d Hp) |].
   split.
   - intros fp o s' d Hp.
     destruct (config_file_save_inside pc fp o s' d Hp) as [[p [Efp [_ [Ed [Eo Es]]]]] [A1 [A2 A3]]].
     subst fp. repeat split; assumption.
   - split; [apply config_stats_write_allowed |].
-    intros X. rewrite (Hu X). apply default_user_names_file.
+    intros X. apply cfg_user_plan_file. rewrite (Hu X). apply default_user_names_file.
 Qed.
 
-(* ---- F. a userDictPath that names NO file (its last component is `..`, or it has no component: "/", "~/..", "a/..")
-   — config.rs accepts it (only "" is guarded).  What save_dict then does, for every such setting: file_name() is None,
-   tmp_name = ".tmp", with_file_name PUSHES it: the temporary file is created INSIDE the directory the setting names
-   (not next to it), and the rename goes onto that directory (which fails at run time: the file stays).  Finding FC10b. *)
+(* ---- F. HISTORY — FC10b, fixed by a91f3ee.  Over the OLD definition cfg_user_plan_old (save_dict without the file-name
+   check): a userDictPath that names NO file (last component `..`, or no component: "/", "~/..", "a/..") — config.rs
+   accepts it — made save_dict put `.tmp` INSIDE the directory the setting names and rename it onto that directory. *)
 Lemma names_file_false_tmp : forall cs, names_file cs = false -> tmp_comps cs = cs ++ [tmp_suffix].
 Proof.
   intros cs H. unfold names_file in H. unfold tmp_comps. destruct (rev cs) as [| n r] eqn:E.
@@ -201,52 +199,32 @@ Proof.
   - destruct (beqb n dotdot); [reflexivity | discriminate H].
 Qed.
 
-Theorem config_user_plan_dir : forall pc, names_file (p_user pc) = false ->
+Lemma config_user_plan_dir_old : forall pc, names_file (p_user pc) = false ->
   let dirp := render' (resolve (p_user pc)) in
-  cfg_user_plan pc = (dirp ++ slash :: tmp_suffix, dirp ++ slash :: tmp_suffix, m_user (mcfg_of pc)).
+  cfg_user_plan_old pc = (dirp ++ slash :: tmp_suffix, dirp ++ slash :: tmp_suffix, m_user (mcfg_of pc)).
 Proof.
-  intros pc H. cbv zeta. unfold cfg_user_plan, save_plan. rewrite (names_file_false_tmp _ H).
+  intros pc H. cbv zeta. unfold cfg_user_plan_old, save_plan. rewrite (names_file_false_tmp _ H).
   assert (Ht : tmp_suffix <> dotdot) by discriminate.
   rewrite (resolve_snoc _ _ Ht). rewrite (render_nonempty _ (snoc_nonempty _ _ _)), render'_snoc. reflexivity.
 Qed.
 
-(* the property at full strength for the user dictionary — "whatever userDictPath says, HarperAddToUserDict opens
-   nothing but the configured file or its sibling, and renames only the sibling onto the file" — is FALSE for the code as
-   it is: witness userDictPath = "/a/b/.." *)
-Theorem config_user_write_refuted :
-  exists e u pc o sr d, parse_paths e u SAbsent SAbsent = Some pc /\ cfg_user_plan pc = (o, sr, d) /\
-    path_allowed (mcfg_of pc) o = false /\ rename_allowed (mcfg_of pc) sr d = false.
+Lemma config_user_write_old_refuted :
+  exists e u pc o sr d, parse_paths e u SAbsent SAbsent = Some pc /\ cfg_user_plan_old pc = (o, sr, d) /\
+    path_allowed (mcfg_of pc) o = false /\ rename_allowed (mcfg_of pc) sr d = false /\ cfg_user_plan pc = None.
 Proof.
   exists (mkenv (bytes_of_string "/home/u") (bytes_of_string "/work/proj") (bytes_of_string "/home/u/.config") (bytes_of_string "/home/u/.local/share")).
   exists (SString (bytes_of_string "/a/b/..")). eexists. eexists. eexists. eexists.
-  split; [reflexivity |]. split; [vm_compute; reflexivity |]. split; vm_compute; reflexivity.
+  split; [reflexivity |]. split; [vm_compute; reflexivity |]. split; [| split]; vm_compute; reflexivity.
 Qed.
 
-(* with the proposed fix (fixes/FC10b-user-dict-names-directory.diff: save_dict refuses a destination without a file
-   name) the user-dictionary part holds for EVERY configuration, no proviso *)
-Definition cfg_user_plan_fixed (pc : pcfg) : option (bytes * bytes * bytes) :=
-  if names_file (p_user pc) then Some (cfg_user_plan pc) else None.
-
-Theorem config_user_fixed_inside : forall pc o s d, cfg_user_plan_fixed pc = Some (o, s, d) ->
-  let c := mcfg_of pc in
-  o = m_user c ++ tmp_suffix /\ s = o /\ d = m_user c /\
-  path_allowed c o = true /\ path_allowed c d = true /\ rename_allowed c s d = true.
-Proof.
-  intros pc o s d H. cbv zeta. unfold cfg_user_plan_fixed in H.
-  destruct (names_file (p_user pc)) eqn:Hn; [| discriminate H].
-  destruct (config_user_save_inside pc Hn) as [E [A1 [A2 A3]]]. rewrite E in H. inversion H; subst o s d.
-  repeat split; assumption.
-Qed.
-
-(* the hypothesis `names_file` is needed: a userDictPath that names a DIRECTORY by ending in `..` makes save_dict put
-   `.tmp` INSIDE that directory, which is not the configured file nor its sibling (a misconfiguration the user wrote
-   down explicitly — unlike "", which the guard turns into the default) *)
+(* HISTORY (FC10b): a userDictPath that names a DIRECTORY by ending in `..` made the OLD save_dict put `.tmp` INSIDE that
+   directory, which is not the configured file nor its sibling; the current one writes nothing *)
 Lemma config_dir_setting_example :
   let b := fun s : string => bytes_of_string s in
   let e := mkenv (b "/home/u") (b "/work/proj") (b "/home/u/.config") (b "/home/u/.local/share") in
   exists pc, parse_paths e (SString (b "/a/b/..")) SAbsent SAbsent = Some pc /\ names_file (p_user pc) = false /\
-    m_user (mcfg_of pc) = b "/a" /\ cfg_user_plan pc = (b "/a/.tmp", b "/a/.tmp", b "/a") /\
-    path_allowed (mcfg_of pc) (b "/a/.tmp") = false.
+    m_user (mcfg_of pc) = b "/a" /\ cfg_user_plan_old pc = (b "/a/.tmp", b "/a/.tmp", b "/a") /\
+    path_allowed (mcfg_of pc) (b "/a/.tmp") = false /\ cfg_user_plan pc = None.
 Proof. cbv zeta. eexists. split; [reflexivity |]. vm_compute. repeat split; reflexivity. Qed.
 
 (* non-vacuity + what each kind of setting becomes *)
@@ -266,7 +244,7 @@ Lemma config_examples :
   parse_render e SNotString SAbsent SAbsent = None /\ parse_render e SAbsent SAbsent SNotString = None /\
   (exists pc, parse_paths e (SString (b "../up/./d.txt")) (SString []) SAbsent = Some pc /\
      names_file (p_user pc) = true /\
-     cfg_user_plan pc = (b "/work/up/d.txt.tmp", b "/work/up/d.txt.tmp", b "/work/up/d.txt") /\
+     cfg_user_plan pc = Some (b "/work/up/d.txt.tmp", b "/work/up/d.txt.tmp", b "/work/up/d.txt") /\
      cfg_file_plan pc (Some (b "/work/proj/a.md")) =
        Some (b "/home/u/.local/share/harper-ls/file_dictionaries/work%proj%a.md%.tmp",
              b "/home/u/.local/share/harper-ls/file_dictionaries/work%proj%a.md%.tmp",
